@@ -92,6 +92,10 @@ def mutants(s, name, rnd, quick):
             for alt in {n - 1, n + 1, n // 10, 1, 0} - {n}:
                 if alt >= 0:
                     yield "other-number", s[:m.start()] + str(alt) + s[m.end():]
+    for m in re.finditer(r"(?<=[A-Za-z])\d(?=[|$,}])", s):           # a one-digit selector ending a name ({FSHP1|, $sha1$, $md5$): every other digit
+        for alt in "0123456789":
+            if alt != m.group():
+                yield "subst", s[:m.start()] + alt + s[m.end():]
     if name == "cisco_type7" and len(s) >= 2 and s[:2].isdigit():      # a leading two-digit offset, directly followed by hex digits
         for alt in range(100):
             if "%02d" % alt != s[:2]:
@@ -338,6 +342,7 @@ def run(chk):
                 if m == s or (kind, m) in seen:
                     continue
                 seen.add((kind, m))
+                by_form = {}
                 for form in ("str", "bytes"):
                     if form == "bytes":
                         if not quick or rnd.random() < .25:
@@ -373,12 +378,34 @@ def run(chk):
                             skipped_expensive[0] += 1
                             continue
                         total += 1
+                        by_form.setdefault(cname, {})[form] = out
                         key = (name, kind, cname, out)
                         a = agg.setdefault(key, {"n": 0, "witness": m, "form": form})
                         a["n"] += 1
                         if out == "True" and cname in ("verify", "ctx_verify"):
                             events.append({"fam": fam, "hasher": name, "kind": kind, "call": cname, "outcome": out, "padpos": padpos,
                                            "mutant": [ord(c) for c in m], "original": [ord(c) for c in s]})
+                # a stored hash is text; ASCII bytes are the same string and must be decided the same way
+                if m.isascii():
+                    for cname, d in by_form.items():
+                        if len(d) == 2 and d["str"] != d["bytes"]:
+                            chk.violation(f"{name}:{cname}:bytes-differ:{d['str']}->{d['bytes']}",
+                                          f"{name}.{cname} decides the {kind} mutant as {d['str']} when given as str and as {d['bytes']} when given as the same ASCII bytes",
+                                          {"hasher": name, "mutant": m, "kind": kind})
+            # the unaltered hash itself, as str and as ASCII bytes, through the hasher and the context
+            for form, ss in (("str", s), ("bytes", s.encode("ascii"))):
+                vkw = dict(ckw, full=True) if name == "scram" else ckw
+                calls = [("identify", lambda: h.identify(ss), ("True",)), ("verify", lambda: h.verify(PW, ss, **vkw), ("True",)),
+                         ("needs_update", lambda: h.needs_update(ss), ("True", "False"))]
+                if ctxobj is not None and name != "scram":
+                    calls += [("ctx_verify", lambda: ctxobj.verify(PW, ss, **ckw), ("True",)), ("ctx_needs_update", lambda: ctxobj.needs_update(ss), ("True", "False")),
+                              ("ctx_verify_and_update", lambda: ctxobj.verify_and_update(PW, ss, **ckw)[0], ("True",))]
+                for cname, fn, ok in calls:
+                    out = call1(fn)
+                    total += 1
+                    chk.action("valid-hash:" + cname)
+                    if out not in ok:
+                        chk.violation(f"{name}:{cname}:valid-{form}:{out}", f"{name}.{cname} on its own valid hash given as {form}: {out}", {"hasher": name, "hash": s, "form": form})
     # enormous costs: the computation may legitimately take for ever (then the child is killed and nothing is concluded), but it must
     # not end in an internal error
     if probe_later:
